@@ -9,13 +9,14 @@ MCFlat == {"d2"}
 MCForms == {"physical", "center_manifold_real"}
 MCUserOpts1 == {"o1"}
 MCUserOpts2 == {"o1", "o2"}
+MCPropTimes == {"t1", "t2"}
 MCOther == {"L4"}
 MCOtherTri == {"L2"}
 NoOther == {}
 
 ReadOps == {"Position", "Gamma", "Cn", "LinearModes", "NormalForm", "LinearData", "Energy", "Jacobi",
             "Eigenvalues", "IsStable", "ScaleFactor", "Hamiltonian", "HamSys", "GenFuncs", "GetCM",
-            "CreateOrbit", "ReadOptions", "ReadConfig", "SysPoints"}
+            "CreateOrbit", "ReadOptions", "ReadConfig", "SysPoints", "SysPropagate"}
 WriteOps == {"RetargetCM", "SetOptions", "SetConfig", "SysGetPoint", "Save", "Load", "LoadInplace", "SysSaveLoad"}
 AllOps == ReadOps \cup WriteOps
 \* the linear layer only (cheap: nothing needs a normal form)
@@ -25,7 +26,7 @@ OptOps == {"SetOptions", "SetConfig", "Save", "Load", "LoadInplace", "SysSaveLoa
 \* Hamiltonian layer with the operations that can disturb it
 HamOps == {"ScaleFactor", "NormalForm", "Hamiltonian", "HamSys", "GenFuncs", "GetCM", "RetargetCM", "Save", "Load", "SysSaveLoad"}
 
-NoHistView == <<Lo, Lc, Lpts, Io, Ic, Ipts, pc, left, saved, last>>
+NoHistView == <<Lo, Lc, Lpts, Io, Ic, Ipts, pc, sc, left, saved, last>>
 \* several workers: the history length must be part of the state identity under a length constraint
 DepthView == <<NoHistView, Len(hist)>>
 EmitState == (Len(hist) <= MaxLen) => PrintT(ToJson(hist))
